@@ -319,20 +319,109 @@ fn view_case(t0: &mut Tape, w: &Worker) -> CaseResult {
     Ok(out)
 }
 
+/// More error messages than fit a 16-bit counter, sent by several validator threads at once: the stored messages,
+/// the statistics file and the exit status must still be the same in every run (no error cap is set).
+fn many_errors_case(i: u64, w: &Worker) -> CaseResult {
+    let n_links = 2 + (i % 2) as usize;
+    let per_link = 70_000 / (2 * n_links) + 1 + (i as usize % 7) * 13;
+    let mut links: Vec<Link> = vec![];
+    for l in 0..n_links {
+        let mut packets = vec![];
+        for _ in 0..per_link {
+            // every RDH is its own heartbeat frame (page 0, stop bit 1) with the orbit of its predecessor (E11)
+            // and a reserved RDH2 bit (E10): two messages at the same offset
+            let r = Rdh { link_id: l as u8, fee_id: fee_id(0, l as u8 % 4, 3), pages_counter: 0, stop_bit: 1, orbit: 77, rdh2_reserved: 1, ..Rdh::default() };
+            let mut p = Packet::new(r);
+            p.fix_sizes();
+            packets.push(p);
+        }
+        links.push(Link { packets, barrel: Barrel::Inner, lane_ids: vec![] });
+    }
+    let lens: Vec<usize> = links.iter().map(|l| l.packets.len()).collect();
+    let stream = Stream { links, order: order_round_robin(&lens) };
+    let (bytes, _) = stream.encode();
+    let mode = if i % 4 < 2 { Mode::All } else { Mode::AllIts };
+    let toml_fmt = i % 3 == 0;
+    let mut case = CliCase::new(w, bytes.clone());
+    let file = case.file();
+    let mut first: Option<(Vec<u8>, Option<i32>, String)> = None;
+    let mut total = 0u64;
+    let k_runs = w.tier.pick(4, 10);
+    for k in 0..k_runs {
+        let sp = w.path(if toml_fmt { "many.toml" } else { "many.json" });
+        let mut args = vec![file.display().to_string()];
+        args.extend(mode.args());
+        args.extend(["-m".to_string(), "-E".to_string(), "9".to_string()]);
+        args.extend(stats_args(&sp, toml_fmt));
+        let mut spec = RunSpec::new(args, Input::File(file.clone()));
+        spec.env = match k {
+            0 => vec![],
+            1 => vec![("FASTPASTA_VERIF_SCHED".into(), format!("{},50,20", 1000 + i))],
+            2 => vec![("FASTPASTA_VERIF_SCHED".into(), format!("{},20,10,slow=Validator:3", 2000 + i))],
+            _ => vec![("FASTPASTA_VERIF_SCHED".into(), format!("{},100,30", 3000 + i + k as u64))],
+        };
+        spec.timeout = std::time::Duration::from_secs(180);
+        let o = case.run_spec(&spec);
+        if o.timed_out {
+            let mut out = CaseOut::default();
+            out.labels.push("inconclusive:timeout".into());
+            return Ok(out);
+        }
+        if let Some(sig) = o.crash_signature() {
+            return Err(Fail::new(format!("C05:many-errors:crash:{sig}"), "crash with more than 65535 errors", json!({"cmd": spec.describe(), "out": o.brief()})));
+        }
+        let stats = std::fs::read(&sp).unwrap_or_default();
+        if let Some(st) = cli::parse_stats(&String::from_utf8_lossy(&stats), toml_fmt) {
+            total = st["error_stats"]["total_errors"].as_u64().unwrap_or(0);
+            let listed = st["error_stats"]["reported_errors"].as_array().map(|a| a.len() as u64).unwrap_or(0);
+            if listed != total {
+                return Err(Fail::new("C05:many-errors:listed-vs-total", format!("{listed} messages stored, total_errors says {total}"), json!({"cmd": spec.describe(), "run": k})));
+            }
+        }
+        let obs = (stats, o.code, cli::normalized_report(&o.stdout_str()));
+        match &first {
+            None => first = Some(obs),
+            Some(f) => {
+                if *f != obs {
+                    let what = if f.1 != obs.1 { "exit-status" } else if f.0 != obs.0 { "stats-file" } else { "report" };
+                    return Err(Fail::new(
+                        format!("C05:schedule-dependent:many-errors:{what}"),
+                        format!("run {k} differs from run 0 in {what} with {total} errors from {n_links} links ({})", mode.name()),
+                        json!({"mode": mode.name(), "run": k, "env": spec.env, "links": n_links, "packets_per_link": per_link, "stats_sizes": [f.0.len(), obs.0.len()], "codes": [f.1, obs.1]}),
+                    ));
+                }
+            }
+        }
+    }
+    let mut out = CaseOut::default();
+    out.nontrivial = total > 65_535;
+    out.fingerprint = fnv64(&bytes) ^ i;
+    out.execs = case.execs;
+    out.labels.push(format!("many_errors:links:{n_links}"));
+    if total > 65_535 {
+        out.labels.push("errors>65535".into());
+    }
+    if w.take_sample() {
+        out.sample = Some(json!({"kind": "many_errors", "links": n_links, "packets_per_link": per_link, "total_errors": total, "runs": k_runs, "mode": mode.name()}));
+    }
+    Ok(out)
+}
+
 pub fn build() -> Property {
     Property {
         id: "C05",
         rule: "Multi-link (1..8 links, interleaved) G_conf streams corrupted so that several messages share an offset (E10+E11, E991+E70, E40+E444, E50) on every link, plus G_mut edits and a conforming control; \
-               modes {check all, check all its, check all its-stave} x mute x {JSON, TOML}. Each case is executed K times (quick 8, thorough 40) on the hook-enabled CLI under different \
+               modes {check all, check all its, check all its-stave} x mute x {JSON, TOML} (a fifth of the non-stave cases additionally with --filter-link <present link> -o <file>, an output the tool documents as ignored next to a check). Each case is executed K times (quick 8, thorough 40) on the hook-enabled CLI under different \
                FASTPASTA_VERIF_SCHED settings (unperturbed, slow validators, slow collector, slow dispatcher, random yields/sleeps at every channel hand-off). Oracle: all K runs give the same ERROR records in the \
                same order, the same report (minus `Processed in`), a byte-identical statistics file and the same exit status. Non-trivial = the K runs produced >= 2 distinct pre-sort arrival orders \
-               (measured through the trace hook) AND the input has a same-offset group AND more than 20 errors; distinct by input hash x configuration.",
+               (measured through the trace hook) AND the input has a same-offset group AND more than 20 errors; distinct by input hash x configuration. Phase many_errors: 2..3 links of RDH-only packets that give two messages each, more than 65535 messages in total (beyond any 16-bit bound), 4 (10) runs under light perturbation: byte-identical statistics file, same report and exit status, every counted message stored.",
         assumptions: vec![
             "schedules are sampled by seeded perturbation at the channel hand-offs, not enumerated (DESIGN.md section 7)".into(),
             "WARN records are printed live by worker threads and are not part of the comparison".into(),
             "no error cap and no fatal input error (the statement's own proviso)".into(),
         ],
         phases: vec![
+            Phase { name: "many_errors", kind: PhaseKind::Enum { n: (2, 8), exhaustive: (false, false), f: Box::new(many_errors_case) }, threads: 2 },
             Phase {
                 name: "view_schedules",
                 kind: PhaseKind::Gen { cases: (240, 1200), tape_len: 64 + 64 + 2000 + 6 * 4000 + 14000, f: Box::new(view_case) },
